@@ -227,14 +227,14 @@ def run(ctx: Ctx):
     run_witnesses(ctx)
     quick = ctx.quick()
     s = Stream(ctx, "(a) rules under two renamings")
-    cases = random_cases(ctx.rng("rules"), 6000 if quick else 120000, comps=ABSTRACT, strict=False, max_nodes=12, max_imports=10)
-    cases += random_cases(ctx.rng("rules-strict"), 3000 if quick else 60000, comps=ABSTRACT, strict=True, max_nodes=12, max_imports=10)
+    cases = random_cases(ctx.rng("rules"), ctx.size(6000, 120000), comps=ABSTRACT, strict=False, max_nodes=12, max_imports=10)
+    cases += random_cases(ctx.rng("rules-strict"), ctx.size(3000, 60000), comps=ABSTRACT, strict=True, max_nodes=12, max_imports=10)
     judge_rules(ctx, s, cases, ADV_ANY)
     s.finish()
     s = Stream(ctx, "(b) layer rules under two renamings")
     rng = ctx.rng("layers")
     lcases = []
-    while len(lcases) < (4000 if quick else 80000):
+    while len(lcases) < (ctx.size(4000, 80000)):
         nodes = gen.random_tree(rng, max_nodes=12, comps=ABSTRACT)
         if len(nodes) < 4:
             continue
@@ -246,13 +246,13 @@ def run(ctx: Ctx):
     s = Stream(ctx, "(c) plot labels under two renamings")
     rng = ctx.rng("labels")
     lab = []
-    for _ in range(1500 if quick else 30000):
+    for _ in range(ctx.size(1500, 30000)):
         nodes = gen.random_tree(rng, max_nodes=10, comps=ABSTRACT)
         mods = rng.sample(nodes, rng.randint(1, min(3, len(nodes))))
         lab.append((nodes, [(m, f"@{j}@") for j, m in enumerate(mods)]))
     judge_labels(ctx, s, lab, ADV_ANY)
     s.finish()
     s = Stream(ctx, "(d) scans with module_path below root under two renamings")
-    judge_scans(ctx, s, 150 if quick else 3000)
+    judge_scans(ctx, s, ctx.size(150, 3000))
     s.finish()
     return RULE
